@@ -258,6 +258,41 @@ Arguments NA {N} l.
 Arguments NErr {N}.
 Arguments Ret {N} v.
 Arguments Raise {N}.
+Arguments n0 {N}.
+Arguments sgn {N}.
+Arguments xadd {N}.
+Arguments xsub {N}.
+Arguments inf_times {N}.
+Arguments xmul {N}.
+Arguments xsq {N}.
+Arguments xdiv {N}.
+Arguments xsqrt {N}.
+Arguments xlog {N}.
+Arguments xgt {N}.
+Arguments xisnan {N}.
+Arguments xisreal {N}.
+Arguments xsum {N}.
+Arguments lift2 {N}.
+Arguments lift1 {N}.
+Arguments np_add {N}.
+Arguments np_sub {N}.
+Arguments np_mul {N}.
+Arguments np_div {N}.
+Arguments np_square {N}.
+Arguments np_sqrt {N}.
+Arguments np_log {N}.
+Arguments np_sum {N}.
+Arguments np_mean {N}.
+Arguments np_isnan {N}.
+Arguments np_isreal {N}.
+Arguments np_gt {N}.
+Arguments py_return {N}.
+Arguments py_if {N}.
+Arguments py_let {N}.
+Arguments py_try {N}.
+Arguments lit {N}.
+Arguments np_pi {N}.
+Arguments np_inf {N}.
 
 (* ------------------------------------------------------------------ instance over R *)
 Definition Rltb (x y : R) : bool := if Rlt_dec x y then true else false.
